@@ -110,6 +110,86 @@ class SubmitUnitProcess(SubmitUnit):
     canaries = ()
 
 
+def executor_method(cls_name, meth):
+    class U(Unit):
+        """The executor wrappers inherit everything but submit from the stdlib executors, and Parmapper.__iter__ relies on the inherited contract
+        "leaving `with executor` shuts it down and WAITS for the calls that are running" (that is what keeps at most `concurrency` invocations alive
+        when a stream is abandoned and iterated again, and what C05 'no helper thread left' rests on).  Frame: the method is inherited (then the stdlib
+        contract applies, trusted) -- or, if the wrapper overrides it, the override is checked against that contract on every path."""
+        prop = 'C08'
+        file = FC
+        qual = f'{cls_name}.{meth}'
+
+        def run(self, override=None):
+            import ast, hashlib
+            from pyvc.unit import load_source, find_function
+            from pyvc.core import Obligation
+            try:
+                self.load(override)
+            except KeyError:
+                res = {'unit': self.name, 'status': 'ok', 'obligations': [], 'covers': {}, 'ignored': [], 'sha': None, 'error': None, 'paths': 0, 'lineno': None, 'unreached': []}
+                try:
+                    cls = find_function(ast.parse(load_source(self.file, override)), cls_name)
+                except KeyError as e:
+                    res['status'], res['error'] = 'undecided', f'cannot extract {self.file}::{cls_name}: {e!r}'
+                    return res
+                bases = [ast.unparse(b) for b in cls.bases]
+                res['sha'] = hashlib.sha256(('inherited:' + ','.join(bases)).encode()).hexdigest()
+                res['lineno'] = cls.lineno
+                ob = Obligation(f'{self.qual}: not overridden: inherited from concurrent.futures.{cls_name} (whose `with` exit / shutdown waits for the running calls: trusted stdlib contract)',
+                                [], z3.BoolVal(bases == [f'concurrent.futures.{cls_name}']), [], 'assert')
+                ob.unit = self.name
+                res['obligations'].append(ob)
+                return res
+            return super().run(override)
+
+        def setup(self, ex):
+            st = St()
+            st.ghost['waited'] = z3.BoolVal(False)
+            st.ghost['nowait'] = z3.BoolVal(False)
+
+            def shutdown(e, s, a, k, n):
+                w = k.get('wait', a[0] if a else z3.BoolVal(True))
+                s = s.fork()
+                w = w if z3.is_bool(w) else e.truthy(s, w)
+                s.ghost['waited'] = z3.Or(s.ghost['waited'], w)
+                return [('ok', s, NONE)]
+            self.sd = Fn(shutdown)
+            me = Rec(ex, 'self', methods={} if meth == 'shutdown' else {'shutdown': self.sd})
+            st.env['self'] = me
+            if meth == '__exit__':
+                for nm in ('exc_type', 'exc_val', 'exc_tb'):
+                    st.env[nm] = z3.Const(nm, Val)
+            else:
+                st.env['wait'] = z3.Bool('wait')
+                st.env['cancel_futures'] = z3.Bool('cancel_futures')
+            return st
+
+        def on_call(self, ex, st, e, src):
+            if src == 'super().__exit__':
+                def f(s, ak):
+                    s = s.fork()
+                    s.ghost['waited'] = z3.BoolVal(True)
+                    return [('ok', s, z3.BoolVal(False))]
+                return ex.bind(ex.evargs(e, st), f)
+            if src == 'super().shutdown':
+                return ex.bind(ex.evargs(e, st), lambda s, ak: self.sd.invoke(ex, s, ak[0], ak[1], e))
+            return None
+
+        def post(self, ex, outs):
+            for k, s, p in outs:
+                if meth == '__exit__':
+                    ex.oblige(s, 'exit: [C08/C05] leaving the `with` block -- normally or by an exception (abandoned iteration, failed element) -- shuts the pool down and WAITS for the calls that are running', s.ghost['waited'])
+                else:
+                    ex.oblige(s, 'exit: [C08/C05] shutdown(wait=True) waits for the calls that are running', z3.Implies(s.env['wait'], s.ghost['waited']))
+    U.__name__ = f'ExecutorMethod_{cls_name}_{meth}'
+    return U
+
+
+EXECUTOR_FRAME = [executor_method(c, m) for c in ('ThreadPoolExecutor', 'ProcessPoolExecutor') for m in ('__exit__', 'shutdown')]
+
+
+
 class WorkUnit(Unit):
     """Parmapper.__iter__.<locals>._work(x, **kwargs) == executor.submit(self._func, x, loud_exception=False, **kwargs)."""
     prop = 'C01'
@@ -299,8 +379,8 @@ class ParmapperInit(Unit):
             if k in ('normal', 'return'):
                 g = lambda f: self.me.get(s, f)
                 ex.oblige(s, 'exit: stores its arguments; [C08] fifo capacity is twice the concurrency',
-                          z3.And(box(ex, g('_instream')) == self.P['instream'], box(ex, g('_func')) == self.P['func'], g('_concurrency') == self.conc,
-                                 g('_fifo_capacity') == 2 * self.conc, g('_return_x') == self.rx, g('_return_exceptions') == self.rexc,
+                          z3.And(box(ex, g('_instream')) == self.P['instream'], box(ex, g('_func')) == self.P['func'], box(ex, g('_concurrency')) == box(ex, self.conc),
+                                 box(ex, g('_fifo_capacity')) == box(ex, 2 * self.conc), g('_return_x') == self.rx, g('_return_exceptions') == self.rexc,
                                  box(ex, g('_preprocessor')) == self.P['preprocessor'], z3.BoolVal(g('_func_kwargs') is self.kw),
                                  g('_executor_type') == s.env['executor']))
 
@@ -342,6 +422,6 @@ class C01Lemma(LemmaUnit):
                hyps, z3.Or(z3.And(call_ok(func, x), out == omap(x, call_val(func, x))), z3.And(z3.Not(call_ok(func, x)), rexc, out == omap(x, call_exc(func, x)))))
 
 
-UNITS += [LoudFunction, LoudProcessFunction, SubmitUnit, SubmitUnitProcess, WorkUnit, ParmapperInit, ParmapperInitDefault, ParmapperIter, ParmapperIterProcess, C01Lemma]
+UNITS += [LoudFunction, LoudProcessFunction, SubmitUnit, SubmitUnitProcess] + EXECUTOR_FRAME + [WorkUnit, ParmapperInit, ParmapperInitDefault, ParmapperIter, ParmapperIterProcess, C01Lemma]
 NOT_DECIDED = ('that fut.result() returns (worker termination)', 'ProcessPoolExecutor.__init__ default mp context (does not affect the property)',
                'ParmapperAsync.__iter__ (async worker in a helper thread) delegates to the same fifo_stream; its helper-thread lifecycle is C05')
